@@ -52,6 +52,9 @@ EXTRA_THEOREMS = [
     # the order property behind useless-order / sort-agg / merge-join (Thm/C01Order.lean); `is_orderby` and the
     # analysis' `merge` are pinned (c01_condition_pins.json)
     "sortRows_id_iff", "sortedBy_prefix", "is_orderby_sound", "class_claim_common_prefix_sound", "class_claim_max_unsound",
+    # the two open value-unsound expression rules are truth-preserving; sound under AND / OR, not under NOT (Thm/C01Truth.lean)
+    "truth_eq_trans_NNN", "truth_eq_trans_BBB", "truth_eq_trans_SSS", "truth_and_gt_lt_conflict_NNN", "truth_and_gt_lt_conflict_BBB",
+    "truth_and_gt_lt_conflict_SSS", "PCtx.truth_congr", "truth_not_congr_fails",
 ]
 RULES_JSON = os.path.join(vlib.LEAN, "RlModel/Gen/rules.json")
 DOM = {"N": ["null", "n:0", "n:1", "n:-1", "n:2", "n:3", "n:-2"],
@@ -227,13 +230,13 @@ def run(ck):
     cand += ["C01." + n for n in EXTRA_THEOREMS]
     status = {}
     errs_all = {}
-    for mod, extra in (("RlModel.Thm.C01", ["drv_c01"]), ("RlModel.Thm.C01Plan", []), ("RlModel.Thm.C01PlanPerm", []), ("RlModel.Thm.C01Apply", []), ("RlModel.Thm.C01Congr", []), ("RlModel.Thm.C01CongrJoin", []), ("RlModel.Thm.C01CongrAgg", []), ("RlModel.Thm.C01Order", []), ("RlModel.Thm.C01Cond", [])):
+    for mod, extra in (("RlModel.Thm.C01", ["drv_c01"]), ("RlModel.Thm.C01Plan", []), ("RlModel.Thm.C01PlanPerm", []), ("RlModel.Thm.C01Apply", []), ("RlModel.Thm.C01Congr", []), ("RlModel.Thm.C01CongrJoin", []), ("RlModel.Thm.C01CongrAgg", []), ("RlModel.Thm.C01Order", []), ("RlModel.Thm.C01Truth", []), ("RlModel.Thm.C01Cond", [])):
         st, log, errs = vlib.check_lean_obligations(mod, cand, "RlModel", extra)
         for n, v in st.items():
             if n not in status or (v["status"] == "ok" and status[n]["status"] != "ok") or (status[n]["status"] == "missing" and v["status"] != "missing"):
                 status[n] = v
         errs_all.update(errs)
-    forb = vlib.lean_forbidden(vlib.lean_sources("RlModel.Thm.C01") + vlib.lean_sources("RlModel.Thm.C01Plan") + vlib.lean_sources("RlModel.Thm.C01PlanPerm") + vlib.lean_sources("RlModel.Thm.C01Apply") + vlib.lean_sources("RlModel.Thm.C01Congr") + vlib.lean_sources("RlModel.Thm.C01CongrJoin") + vlib.lean_sources("RlModel.Thm.C01CongrAgg") + vlib.lean_sources("RlModel.Thm.C01Order") + vlib.lean_sources("RlModel.Thm.C01Cond"))
+    forb = vlib.lean_forbidden(vlib.lean_sources("RlModel.Thm.C01") + vlib.lean_sources("RlModel.Thm.C01Plan") + vlib.lean_sources("RlModel.Thm.C01PlanPerm") + vlib.lean_sources("RlModel.Thm.C01Apply") + vlib.lean_sources("RlModel.Thm.C01Congr") + vlib.lean_sources("RlModel.Thm.C01CongrJoin") + vlib.lean_sources("RlModel.Thm.C01CongrAgg") + vlib.lean_sources("RlModel.Thm.C01Order") + vlib.lean_sources("RlModel.Thm.C01Truth") + vlib.lean_sources("RlModel.Thm.C01Cond"))
     obligations = {}
     refuted, broken = [], []
     prefuted, pbroken = [], []
